@@ -825,6 +825,7 @@ def _quant(interp, args, is_forall):
     rng = z3.And(lo_t <= j, j < hi_t)
     st.no_fork += 1
     n_pc = len(st.pc)
+    n_fresh = len(st.fresh_log)
     st.solver.push()
     try:
         with st.scope(rng):
@@ -838,10 +839,20 @@ def _quant(interp, args, is_forall):
         learned = st.pc[n_pc:]
         del st.pc[n_pc:]
     # facts assumed about the element at the arbitrary index j hold for every index
-    # (forall-introduction: j was fresh and constrained only by the range, which each fact carries)
+    # (forall-introduction: j was fresh and constrained only by the range, which each fact carries).
+    # Constants created while evaluating the body (pieces of string decompositions, results of
+    # havoc) depend on j: they become Skolem functions of j.
+    created = [c for c in st.fresh_log[n_fresh:] if not c.eq(j)]
+    subst = []
+    for c in created:
+        f = z3.Function(c.decl().name() + '@', z3.IntSort(), c.sort())
+        subst.append((c, f(j)))
+    bt = to_z3(body)
+    if subst:
+        learned = [z3.substitute(t, *subst) for t in learned]
+        bt = z3.substitute(bt, *subst)
     for t in learned:
         st._add(z3.ForAll([j], t) if _mentions(t, j) else t)
-    bt = to_z3(body)
     if is_forall:
         return wrap(z3.ForAll([j], z3.Implies(rng, bt)))
     return wrap(z3.Exists([j], z3.And(rng, bt)))
